@@ -2,7 +2,7 @@
    evaluation of a is decided with fuel n, and the environments are related, then the optimized
    program evaluated with any fuel m >= n gives a related outcome (or is inexact: Unsup).
    Then: Opt.opt produces an optimized form in this sense. *)
-From P2 Require Import Base.Prelude Base.PreludeProofs Sem.Num Sem.Syntax Sem.Ops Sem.Lib Sem.Ref Sem.Gen Sem.Opt Sem.OptRel Sem.OptRelProofs Sem.OptOpsProofs Sem.OptLibProofs.
+From P2 Require Import Base.Prelude Base.PreludeProofs Sem.Num Sem.Syntax Sem.Ops Sem.Lib Sem.Ref Sem.Gen Sem.Sim Sem.RelProofs Sem.GenProofs Sem.Opt Sem.OptRel Sem.OptRelProofs Sem.OptOpsProofs Sem.OptLibProofs.
 Require Import Lia.
 
 (* ---------- names, lookups ---------- *)
@@ -67,52 +67,80 @@ Proof.
   - simpl in M. apply IH; auto.
 Qed.
 
-Lemma env_rel_app s ps vs vs' self c c' env env' :
+Lemma env_rel_weaken s (P Q : name -> Prop) env env' :
+  (forall x, Q x -> P x) -> env_rel s P env env' -> env_rel s Q env env'.
+Proof. intros H [H1 H2]. split; auto. Qed.
+
+Lemma env_rel_closed s (P : name -> Prop) t env env' :
+  closed t -> env_rel s P env env' -> env_rel s (fvp t) env env'.
+Proof. intros C [H1 _]. split; auto. intros x Hx. unfold fvp in Hx. rewrite C in Hx. discriminate. Qed.
+
+Lemma env_rel_app s ps b' vs vs' self self' c c' env env' :
   Forall2 vrel vs vs' -> length vs = length ps -> vrel c c' ->
   (forall x k, lookup x s = Some k -> exists v, lookup x env = Some v /\ vrel v k) ->
-  (forall x, lookup x s = None -> oprel vrel (lookup x env) (lookup x env')) ->
-  env_rel (sdrop (ps ++ this_names self) s)
+  (self' = self \/ (self' = [] /\ (mem_name self ps = true \/ fv self b' = false))) ->
+  (forall x, fv x b' = true -> mem_name x (ps ++ this_names self) = false -> lookup x s = None ->
+             oprel vrel (lookup x env) (lookup x env')) ->
+  env_rel (sdrop (ps ++ this_names self) s) (fvp b')
           (combine ps vs ++ self_binding self c ++ env)
-          (combine ps vs' ++ self_binding self c' ++ env').
+          (combine ps vs' ++ self_binding self' c' ++ env').
 Proof.
-  intros Hvs L Hc H1 H2. split.
+  intros Hvs L Hc H1 Hself H2. split.
   - intros x k. rewrite lookup_sdrop, mem_name_app.
     destruct (mem_name x ps) eqn:Mp; [discriminate|].
     destruct (mem_name x (this_names self)) eqn:Ms; [discriminate|]. simpl. intros Hk.
     rewrite !lookup_app, (lookup_combine_notin _ _ _ Mp), lookup_self_binding, Ms. auto.
-  - intros x. rewrite lookup_sdrop, mem_name_app.
+  - intros x Hfv. unfold fvp in Hfv. rewrite lookup_sdrop. pose proof (mem_name_app x ps (this_names self)) as Mapp.
     destruct (mem_name x ps) eqn:Mp.
-    + intros _. destruct (lookup_combine_rel x ps vs vs' Hvs L Mp) as (v & v' & E1 & E2 & Hv).
+    + rewrite Mapp. intros _. destruct (lookup_combine_rel x ps vs vs' Hvs L Mp) as (v & v' & E1 & E2 & Hv).
       rewrite !lookup_app, E1, E2. constructor; auto.
     + rewrite !lookup_app, (lookup_combine_notin _ _ _ Mp), (lookup_combine_notin _ _ _ Mp), !lookup_self_binding.
-      destruct (mem_name x (this_names self)) eqn:Ms; simpl.
-      * intros _. constructor; auto.
-      * auto.
+      destruct (mem_name x (this_names self)) eqn:Ms.
+      * rewrite Mapp. simpl. intros _.
+        assert (Ex : x = self).
+        { rewrite this_names_mem in Ms. destruct self; [discriminate|]. apply str_eqb_true. exact Ms. }
+        subst x. destruct Hself as [->|[-> [Hm|Hf]]].
+        -- rewrite Ms. constructor; auto.
+        -- congruence.
+        -- congruence.
+      * rewrite Mapp. simpl. intros Ls.
+        assert (Ms' : mem_name x (this_names self') = false).
+        { destruct Hself as [->|[-> _]]; auto. }
+        rewrite Ms'. apply H2; auto.
 Qed.
 
-Lemma env_rel_let s x v v' env env' :
-  vrel v v' -> env_rel s env env' -> env_rel (sdrop [x] s) ((x, v) :: env) ((x, v') :: env').
+Lemma env_rel_let s (P Q : name -> Prop) x v v' env env' :
+  vrel v v' -> env_rel s P env env' -> (forall y, Q y -> str_eqb y x = false -> P y) ->
+  env_rel (sdrop [x] s) Q ((x, v) :: env) ((x, v') :: env').
 Proof.
-  intros Hv [H1 H2]. split.
+  intros Hv [H1 H2] HQ. split.
   - intros y k. rewrite lookup_sdrop. simpl. rewrite orb_false_r.
     destruct (str_eqb y x) eqn:E; [discriminate|]. auto.
-  - intros y. rewrite lookup_sdrop. simpl. rewrite orb_false_r.
+  - intros y Qy. rewrite lookup_sdrop. simpl. rewrite orb_false_r.
     destruct (str_eqb y x) eqn:E; [intros _; constructor; auto|]. auto.
 Qed.
 
-Lemma env_rel_let_const s x v c env env' :
-  vrel v c -> env_rel s env env' -> env_rel ((x, c) :: s) ((x, v) :: env) env'.
+Lemma env_rel_let_const s (P : name -> Prop) x v c env env' :
+  vrel v c -> env_rel s P env env' -> env_rel ((x, c) :: s) P ((x, v) :: env) env'.
 Proof.
   intros Hv [H1 H2]. split.
   - intros y k. simpl. destruct (str_eqb y x) eqn:E; auto.
     intros K. inv K. eauto.
-  - intros y. simpl. destruct (str_eqb y x) eqn:E; [discriminate|]. auto.
+  - intros y Py. simpl. destruct (str_eqb y x) eqn:E; [discriminate|]. auto.
 Qed.
+
+Ltac fvt :=
+  let y := fresh "y" in let Hy := fresh "Hy" in
+  intros y Hy; unfold fvp in *; cbn [fv] in Hy |- *;
+  first [ exact Hy | discriminate Hy
+        | rewrite Hy; repeat match goal with |- context [fv ?a ?b] => destruct (fv a b) end; reflexivity ].
+
+#[local] Hint Extern 2 (OptRel.env_rel _ _ _ _ _) => (eapply env_rel_weaken; [|eassumption]; fvt) : core.
 
 (* ---------- the simulation ---------- *)
 
 Definition sim_at (n : nat) : Prop :=
-  forall s a a' env env' m, arel s a a' -> env_rel s env env' -> n <= m ->
+  forall s a a' env env' m, arel s a a' -> env_rel s (fvp a') env env' -> n <= m ->
     decided (eval n env a) -> R (eval n env a) (eval m env' a').
 
 Lemma R_ok v v' : vrel v v' -> R (Ok v) (Ok v').
@@ -143,35 +171,47 @@ Proof.
   eapply IH; eauto. apply env_rel_app; auto.
 Qed.
 
+Lemma existsb_cons_l {A} (f : A -> bool) x l : f x = true -> existsb f (x :: l) = true.
+Proof. intros H. simpl. rewrite H. reflexivity. Qed.
+Lemma existsb_cons_r {A} (f : A -> bool) x l : existsb f l = true -> existsb f (x :: l) = true.
+Proof. intros H. simpl. rewrite H. apply orb_true_r. Qed.
+
 Lemma list_sim s env env' l l' :
-  Forall2 (arel s) l l' -> env_rel s env env' ->
+  Forall2 (arel s) l l' -> env_rel s (fun x => existsb (fv x) l' = true) env env' ->
   decided (r_list E env l) -> Rl (r_list E env l) (r_list E' env' l').
 Proof.
   intros Hl He. induction Hl as [|x x' l l' Hx Hl IHl]; cbn [r_list]; intros D.
   - right. repeat constructor.
-  - eapply wrel_bind; [exact D|intros; eapply IH; eauto|]. intros v v' _ Hv D2.
-    eapply wrel_bind; [exact D2|intros; apply IHl; auto|]. intros ys ys' _ Hys _.
+  - eapply wrel_bind; [exact D|intros; eapply IH; eauto;
+      eapply env_rel_weaken; [|exact He]; intros y Hy; apply existsb_cons_l; exact Hy|]. intros v v' _ Hv D2.
+    eapply wrel_bind; [exact D2|intros; apply IHl; auto;
+      eapply env_rel_weaken; [|exact He]; intros y Hy; apply existsb_cons_r; exact Hy|]. intros ys ys' _ Hys _.
     right. repeat constructor; auto.
 Qed.
 
 Lemma switch_sim s env env' sv sv' d d' cases cases' :
-  vrel sv sv' -> arel s d d' -> env_rel s env env' ->
+  vrel sv sv' -> arel s d d' ->
+  env_rel s (fun x => fv x d' = true \/ existsb (fun c => fv x (fst c) || fv x (snd c)) cases' = true) env env' ->
   Forall2 (fun c c' => arel s (fst c) (fst c') /\ arel s (snd c) (snd c')) cases cases' ->
   decided (r_switch E env sv d cases) ->
   R (r_switch E env sv d cases) (r_switch E' env' sv' d' cases').
 Proof.
   intros Hsv Hd He Hc. induction Hc as [|[cc cr] [cc' cr'] cases cases' [H1 H2] Hc IHc]; cbn [r_switch]; intros D.
-  - eapply IH; eauto.
+  - eapply IH; eauto. eapply env_rel_weaken; [|exact He]. intros y Hy; left; exact Hy.
   - simpl in H1, H2.
-    eapply wrel_bind; [exact D|intros; eapply IH; eauto|]. intros cv cv' _ Hcv D2.
+    eapply wrel_bind; [exact D|intros; eapply IH; eauto;
+      eapply env_rel_weaken; [|exact He]; intros y Hy; right; apply existsb_cons_l; cbn [fst snd];
+      unfold fvp in Hy; rewrite Hy; reflexivity|]. intros cv cv' _ Hcv D2.
     rewrite <- (equal_fg_rel known _ _ _ _ Hsv Hcv).
     destruct (equal_fg sv cv) as [[|]| | | |]; try (right; constructor).
-    + eapply IH; eauto.
-    + apply IHc; auto.
+    + eapply IH; eauto. eapply env_rel_weaken; [|exact He]. intros y Hy; right; apply existsb_cons_l; cbn [fst snd].
+      unfold fvp in Hy; rewrite Hy. apply orb_true_r.
+    + apply IHc; auto. eapply env_rel_weaken; [|exact He]. intros y [Hy|Hy]; [left; exact Hy|right; apply existsb_cons_r; exact Hy].
 Qed.
 
 Lemma map_sim s env env' mm mm' acc acc' :
-  Forall2 (fun e e' => fst e = fst e' /\ arel s (snd e) (snd e')) mm mm' -> env_rel s env env' ->
+  Forall2 (fun e e' => fst e = fst e' /\ arel s (snd e) (snd e')) mm mm' ->
+  env_rel s (fun x => existsb (fun e => fv x (snd e)) mm' = true) env env' ->
   Forall2 erel acc acc' ->
   decided (r_map E env mm acc) -> R (r_map E env mm acc) (r_map E' env' mm' acc').
 Proof.
@@ -179,8 +219,11 @@ Proof.
   induction Hm as [|[k x] [k' x'] mm mm' [H1 H2] Hm IHm]; intros acc acc' Ha; cbn [r_map]; intros D.
   - right. constructor. constructor. auto.
   - simpl in H1, H2. subst k'.
-    eapply wrel_bind; [exact D|intros; eapply IH; eauto|]. intros v v' _ Hv D2.
-    apply IHm; auto. apply Forall2_app'; auto. constructor; [split; auto|constructor].
+    eapply wrel_bind; [exact D|intros; eapply IH; eauto;
+      eapply env_rel_weaken; [|exact He]; intros y Hy; apply existsb_cons_l; exact Hy|]. intros v v' _ Hv D2.
+    apply IHm; auto.
+    + eapply env_rel_weaken; [|exact He]. intros y Hy; apply existsb_cons_r; exact Hy.
+    + apply Forall2_app'; auto. constructor; [split; auto|constructor].
 Qed.
 
 End Step.
@@ -228,6 +271,7 @@ Proof.
     | s op a b c1 c2 c x' Hsc Hlaw Ha IHa Hb IHb Hcalc
     | s op a b c1 c2 c x' Hsc Hlaw Ha IHa Hb IHb Hcalc
     | s ps b b' outer outer' r r' this Hb IHb
+    | s ps b b' outer r this Hb IHb Hcl
     | s l l' Hl
     | s l l' i i' Hl IHl Hi IHi
     | s mm mm' Hm
@@ -235,16 +279,19 @@ Proof.
     | s fn fn' args args' Hfn IHfn Hargs
     | s f args args' Hargs
     | s recv recv' mname args args' Hrecv IHrecv Hargs
-    | s a t t' Ha IHa Hseq ];
+    | s a t t' Ha IHa Hclosed Hseq ];
     intros env env' k Henv Hk D.
   - (* const *) destruct k as [|k]; [lia|]. right. constructor. auto.
   - (* ident *) destruct k as [|k]; [lia|]. rewrite !eval_S. cbn [ref_step].
-    destruct Henv as [_ H2]. destruct (H2 x H); right; constructor; auto.
+    destruct Henv as [_ H2].
+    assert (Fx : fvp (AIdent x) x) by (unfold fvp; cbn [fv]; apply str_eqb_refl).
+    destruct (H2 x Fx H); right; constructor; auto.
   - (* ident const *) destruct k as [|k]; [lia|]. rewrite !eval_S. cbn [ref_step].
     destruct Henv as [H1 _]. destruct (H1 x c H) as (v & -> & Hv). right. constructor. auto.
   - (* let *) destruct k as [|k]; [lia|]. rewrite eval_S in D. rewrite !eval_S. cbn [ref_step] in *.
     eapply wrel_bind; [exact D|intros; eapply IHn; eauto; lia|]. intros vv vv' _ Hvv D2.
-    eapply IHn; eauto; [apply env_rel_let; auto|lia].
+    eapply IHn; eauto; [eapply env_rel_let; [exact Hvv|exact Henv|]|lia].
+    intros y Hy Ey. unfold fvp in *. cbn [fv]. rewrite Hy, Ey. cbn. apply orb_true_r.
   - (* let const *) rewrite eval_S in D. rewrite eval_S. cbn [ref_step] in *.
     pose proof (decided_bind _ _ D) as D1.
     assert (Hc : R (eval n env v) (Ok c)).
@@ -269,7 +316,9 @@ Proof.
     eapply IHn; eauto. lia.
   - (* switch *) destruct k as [|k]; [lia|]. rewrite eval_S in D. rewrite !eval_S. cbn [ref_step] in *.
     eapply wrel_bind; [exact D|intros; eapply IHn; eauto; lia|]. intros sv sv' _ Hsv D2.
-    eapply switch_sim; eauto. lia.
+    eapply switch_sim; eauto; [lia|].
+    eapply env_rel_weaken; [|exact Henv]. intros y Hy. unfold fvp. rewrite fv_switch.
+    destruct Hy as [Hy|Hy]; rewrite Hy; rewrite ?orb_true_r; reflexivity.
   - (* try *) destruct k as [|k]; [lia|]. rewrite eval_S in D. rewrite !eval_S. cbn [ref_step] in *.
     assert (Dt : decided (eval n env t)).
     { unfold decided in *. destruct (eval n env t); cbn in *; auto. }
@@ -347,30 +396,37 @@ Proof.
     right. apply calc_rel; auto.
   - (* closure literal *) destruct k as [|k]; [lia|]. rewrite !eval_S. cbn [ref_step].
     right. constructor. destruct Henv as [H1 H2]. econstructor; eauto.
+    intros x Hx Mx Lx. apply H2; auto. unfold fvp. cbn [fv]. rewrite Mx, Hx. reflexivity.
+  - (* closure literal folded to a constant *) destruct k as [|k]; [lia|]. rewrite !eval_S. cbn [ref_step].
+    right. constructor. destruct Henv as [H1 H2]. econstructor; eauto.
+    + right. split; auto. destruct (fv this b') eqn:F; auto.
+    + intros x Hx Mx Lx. rewrite mem_name_app, (Hcl x Hx) in Mx. discriminate.
   - (* list *) destruct k as [|k]; [lia|]. rewrite eval_S in D. rewrite !eval_S. cbn [ref_step] in *.
-    eapply wrel_bind; [exact D|intros; eapply list_sim; eauto; lia|]. intros vs vs' _ Hvs _.
+    eapply wrel_bind; [exact D|intros; eapply list_sim; eauto; try lia; try exact Henv|]. intros vs vs' _ Hvs _.
     right. constructor. constructor. auto.
   - (* index *) destruct k as [|k]; [lia|]. rewrite eval_S in D. rewrite !eval_S. cbn [ref_step] in *.
     eapply wrel_bind; [exact D|intros; eapply IHn; eauto; lia|]. intros iv iv' _ Hiv D2.
     eapply wrel_bind; [exact D2|intros; eapply IHn; eauto; lia|]. intros lv lv' _ Hlv _.
     right. apply access_list_rel; auto.
   - (* map *) destruct k as [|k]; [lia|]. rewrite eval_S in D. rewrite !eval_S. cbn [ref_step] in *.
-    eapply map_sim; eauto. lia.
+    eapply map_sim; eauto; try lia; try exact Henv.
   - (* member *) destruct k as [|k]; [lia|]. rewrite eval_S in D. rewrite !eval_S. cbn [ref_step] in *.
     eapply wrel_bind; [exact D|intros; eapply IHn; eauto; lia|]. intros mv mv' _ Hmv _.
     right. apply access_map_rel; auto.
   - (* call *) destruct k as [|k]; [lia|]. rewrite eval_S in D. rewrite !eval_S. cbn [ref_step] in *.
-    eapply wrel_bind; [exact D|intros; eapply IHn; eauto; lia|]. intros fv fv' _ Hfv D2.
+    eapply wrel_bind; [exact D|intros; eapply IHn; eauto; lia|]. intros fnv fnv' _ Hfv D2.
     pose proof Hfv as Hfv0. inv Hfv; try (right; constructor).
     rewrite <- (Forall2_length' _ _ _ Hargs).
     destruct (Nat.eqb (length args) (length ps)); [|right; constructor].
-    eapply wrel_bind; [exact D2|intros; eapply list_sim; eauto; lia|]. intros vs vs' _ Hvs D3.
+    eapply wrel_bind; [exact D2|intros; eapply list_sim; eauto; try lia;
+      (eapply env_rel_weaken; [|exact Henv]; intros y Hy; unfold fvp; rewrite fv_call, Hy; apply orb_true_r)|].
+    intros vs vs' _ Hvs D3.
     eapply app_sim; eauto. lia.
   - (* static *) destruct k as [|k]; [lia|]. rewrite eval_S in D. rewrite !eval_S. cbn [ref_step] in *.
     destruct (static_arity f) as [ar|]; [|right; constructor].
     rewrite <- (Forall2_length' _ _ _ Hargs).
     destruct (arity_ok ar (length args)); [|right; constructor].
-    eapply wrel_bind; [exact D|intros; eapply list_sim; eauto; lia|]. intros vs vs' _ Hvs _.
+    eapply wrel_bind; [exact D|intros; eapply list_sim; eauto; try lia; try exact Henv|]. intros vs vs' _ Hvs _.
     right. apply run_static_rel; auto.
   - (* method *) destruct k as [|k]; [lia|]. rewrite eval_S in D. rewrite !eval_S. cbn [ref_step] in *.
     eapply wrel_bind; [exact D|intros; eapply IHn; eauto; lia|]. intros rv rv' _ Hrv D2.
@@ -379,15 +435,19 @@ Proof.
     + rewrite <- (method_arity_rel known _ _ mname Hrv).
       destruct (method_arity rv mname) as [ar|].
       * destruct (arity_ok ar (length args)); [|right; constructor].
-        eapply wrel_bind; [exact D2|intros; eapply list_sim; eauto; lia|]. intros vs vs' _ Hvs D3.
+        eapply wrel_bind; [exact D2|intros; eapply list_sim; eauto; try lia;
+          (eapply env_rel_weaken; [|exact Henv]; intros y Hy; unfold fvp; rewrite fv_method, Hy; apply orb_true_r)|].
+        intros vs vs' _ Hvs D3.
         eapply run_method_w; eauto. intros; eapply app_sim; eauto; lia.
       * rewrite <- (method_exists_rel known _ _ mname known Hrv).
         inv Hrv; right; try constructor; destruct (method_exists _ mname known); constructor.
     + destruct (Nat.eqb (length args) ar); [|right; constructor].
-      eapply wrel_bind; [exact D2|intros; eapply list_sim; eauto; lia|]. intros vs vs' _ Hvs D3.
+      eapply wrel_bind; [exact D2|intros; eapply list_sim; eauto; try lia;
+          (eapply env_rel_weaken; [|exact Henv]; intros y Hy; unfold fvp; rewrite fv_method, Hy; apply orb_true_r)|].
+        intros vs vs' _ Hvs D3.
       eapply app_sim; eauto. lia.
   - (* a rewrite step on the optimized side *)
-    specialize (IHa env env' k Henv Hk D). destruct IHa as [U|Hr].
+    specialize (IHa env env' k (env_rel_closed _ _ _ _ _ Hclosed Henv) Hk D). destruct IHa as [U|Hr].
     + left. rewrite (Hseq k env'); [exact U|rewrite U; discriminate].
     + right. rewrite (Hseq k env'); [exact Hr|].
       intros EO. rewrite EO in Hr.
